@@ -165,6 +165,10 @@ impl Search {
             crate::verif_hooks::sched_point("search.iter_done");
         }
 
+        // From here on the result is decided: tell the UCI thread that this search is over
+        // before the GUI can see the bestmove line and answer it with the next go
+        self.stop();
+
         #[cfg(rce_verif)]
         crate::verif_hooks::sched_point("search.pre_bestmove");
         // If not even the first iteration could be completed, any legal move is better than no answer
